@@ -7,7 +7,7 @@ from typing import Dict, List
 
 from ..astutil import ancestors, calls_in, dotted, enclosing_withs, name_stores, unparse, walk_local, walk_stmts
 from ..cfg import no_exc
-from ..report import Registry, sub
+from ..report import Registry, chain, sub
 from ._helpers_rules_d import attr_store_nodes, call_nodes, callee_is, ends_with_name, guard_atom_set, qualname
 from .c32 import BOOKKEEPING, _is_tx, _tx_exprs, check_rollback_restores, declared_methods
 
@@ -203,8 +203,9 @@ def r4(ctx):
                 ctx.violation(key, f"`{unparse(g.node(hits[0]).stmt)}` overwrites the parent's entry: the values of {fld} are {composite[fld]} whose first component is "
                                    f"the state's key at the start of the *parent* scope; when the same object changed its key in both scopes the parent "
                                    f"then restores the intermediate key on rollback instead of the original one", rs.loc)
+            elif not item_stores:
+                ctx.violation(key, f"self.{fld} is not merged into the parent's {fld} at all", rs.loc)
             else:
-                ctx.require(item_stores, f"_remove_snapshot: merge of {fld} not understood")
                 ok_all = all(_keeps_first_component(rs.node, st, fld, lambda e: dotted(e) in parents) for lp, st in item_stores)
                 ctx.check(ok_all, key, f"the item-wise merge of {fld} does not reuse the first component of an entry the parent already holds",
                           "existing parent entry keeps its first component", rs.loc)
@@ -298,9 +299,12 @@ DISCARDS = ("safe_discard", "discard", "_fast_discard")
 REGISTERS = ("replace", "add")
 
 
-def _imap_call(c: ast.Call, methods, var: str) -> bool:
-    return (isinstance(c.func, ast.Attribute) and c.func.attr in methods and (dotted(c.func.value) or "").endswith("identity_map")
-            and len(c.args) >= 1 and isinstance(c.args[0], ast.Name) and c.args[0].id == var)
+def _imap_call(c: ast.Call, methods, var: str, imaps=()) -> bool:
+    if not (isinstance(c.func, ast.Attribute) and c.func.attr in methods):
+        return False
+    recv = c.func.value
+    is_map = (dotted(recv) or "").endswith("identity_map") or (isinstance(recv, ast.Name) and recv.id in imaps)
+    return is_map and len(c.args) >= 1 and isinstance(c.args[0], ast.Name) and c.args[0].id == var
 
 
 @R.rule("C33-R6", floor=2, template="T-PATH",
@@ -321,13 +325,14 @@ def r6(ctx):
                     if isinstance(t, ast.Attribute) and t.attr == "key" and isinstance(t.value, ast.Name):
                         stores.setdefault(t.value.id, []).append(st)
         for var, sts in sorted(stores.items()):
-            calls = [c for c in calls_in(f.node) if _imap_call(c, DISCARDS + REGISTERS, var)]
+            imaps = {n for n, v, st_ in name_stores(f.node) if v is not None and (dotted(v) or "").endswith("identity_map")}
+            calls = [c for c in calls_in(f.node) if _imap_call(c, DISCARDS + REGISTERS, var, imaps)]
             if not calls:
                 continue
             ctx.functions_analysed.add(f.key)
             g = ctx.cfg(f)
-            disc = call_nodes(g, lambda c: _imap_call(c, DISCARDS, var))
-            reg = call_nodes(g, lambda c: _imap_call(c, REGISTERS, var))
+            disc = call_nodes(g, lambda c: _imap_call(c, DISCARDS, var, imaps))
+            reg = call_nodes(g, lambda c: _imap_call(c, REGISTERS, var, imaps))
             problems, wit = [], None
             for st in sts:
                 loops = [a for a in ancestors(pm, st) if isinstance(a, (ast.For, ast.While))]
@@ -418,13 +423,15 @@ def r7(ctx):
                   f"the flush that {name}() performs depends on Session configuration {', '.join(bad)}: with that setting off, work done before this point is "
                   f"still unflushed when the transaction scope starts/ends and is attributed to the wrong scope",
                   f"{len(fl)} flush call(s), guards free of Session configuration", f.loc)
-    ctx.require(n_sites >= 2, f"only {n_sites} SessionTransaction method(s) flush the session")
+    ctx.require(n_sites >= 1, "no SessionTransaction method flushes the session")
     ts = ctx.func(f"{ST}._take_snapshot")
     g = ctx.cfg(ts)
-    fl = call_nodes(g, lambda c: isinstance(c.func, ast.Attribute) and c.func.attr == "flush" and dotted(c.func.value) == "self.session")
+    sess = {n for n, v, st in name_stores(ts.node) if v is not None and dotted(v) == "self.session"} | {"self.session"}
+    fl = call_nodes(g, lambda c: isinstance(c.func, ast.Attribute) and c.func.attr == "flush" and dotted(c.func.value) in sess)
     fresh = [n for fld in BOOKKEEPING for n in attr_store_nodes(g, fld, lambda v: isinstance(v, ast.Call), "self")]
     ctx.require(fresh, "_take_snapshot binds no fresh maps")
     if not fl:
+        ctx.violation(f"{ts.key}:flush-guards", "_take_snapshot() performs no flush at all", ts.loc)
         ctx.violation(f"{ts.key}:flush-before-fresh-maps", "_take_snapshot() no longer flushes before a savepoint snapshot is taken: pending work done before "
                       "begin_nested() is attributed to the savepoint and lost when it is rolled back", ts.loc)
     else:
@@ -526,3 +533,55 @@ R.mutant("benign-reorder-snapshot-fields", SESSION,
 R.mutant("benign-rename-parent-local", SESSION,
          sub("            parent = self._parent\n            assert parent is not None\n            parent._new.update(self._new)\n            parent._dirty.update(self._dirty)\n            parent._deleted.update(self._deleted)\n            parent._key_switches.update(self._key_switches)\n",
              "            outer = self._parent\n            assert outer is not None\n            outer._dirty.update(self._dirty)\n            outer._new.update(self._new)\n            outer._deleted.update(self._deleted)\n            outer._key_switches.update(self._key_switches)\n"), None)
+
+# --- str-n: C33-R4 (composite merge) / R6 / R7 / R8
+# C33-R4 `_remove_snapshot:_key_switches:merge-keeps-original` and C33-R8 `rollback:inner-transactions` fire on the unchanged tree
+# (findings/C33_savepoint_release_overwrites_original_key.py, findings/C33_rollback_with_open_inner_savepoint.py); once fixed in /repo enable:
+# R.mutant("savepoint-release-blind-key-switch-merge", SESSION,
+#          sub("            for s, (oldkey, newkey) in self._key_switches.items():\n                if s in parent._key_switches:\n                    oldkey = parent._key_switches[s][0]\n                parent._key_switches[s] = (oldkey, newkey)\n",
+#              "            parent._key_switches.update(self._key_switches)\n"), "C33-R4")
+# R.mutant("rollback-closes-inner-savepoints", SESSION,
+#          sub("                if subtransaction.nested:\n                    # hand the bookkeeping of a still-open SAVEPOINT to its\n                    # parent so that the snapshot restored below covers it\n                    subtransaction._remove_snapshot()\n                subtransaction.close()\n",
+#              "                subtransaction.close()\n"), "C33-R8")
+_KS_OLD = ("                    if state in trans._key_switches:\n                        orig_key = trans._key_switches[state][0]\n                    else:\n                        orig_key = state.key\n")
+R.mutant("key-switch-forgets-original-key", SESSION, sub(_KS_OLD, "                    orig_key = state.key\n"), "C33-R4")
+R.mutant("key-switch-original-from-wrong-map", SESSION,
+         sub(_KS_OLD, "                    if state in trans._dirty and state in trans._new:\n                        orig_key = trans._new[state]\n                    else:\n                        orig_key = state.key\n"), "C33-R4")
+R.mutant("benign-key-switch-rename-local", SESSION,
+         chain(sub(_KS_OLD, "                    first_key = state.key\n                    if state in trans._key_switches:\n                        first_key = trans._key_switches[state][0]\n"),
+               sub("                    trans._key_switches[state] = (\n                        orig_key,\n                        instance_key,\n                    )\n", "                    trans._key_switches[state] = (first_key, instance_key)\n")), None)
+_RK_OLD = ("            # we probably can do this conditionally based on\n            # if we expunged or not, but safe_discard does that anyway\n            self.session.identity_map.safe_discard(s)\n\n"
+           "            # restore the old key\n            s.key = oldkey\n\n")
+R.mutant("seed-restore-rekeys-before-discard", SESSION,
+         sub(_RK_OLD, "            # restore the old key\n            s.key = oldkey\n\n            self.session.identity_map.safe_discard(s)\n\n"), "C33-R6")
+R.mutant("restore-replace-before-rekey", SESSION,
+         sub("            # restore the old key\n            s.key = oldkey\n\n            # now restore the object, but only if we didn't expunge\n            if s not in to_expunge:\n                self.session.identity_map.replace(s)\n",
+             "            # now restore the object, but only if we didn't expunge\n            if s not in to_expunge:\n                self.session.identity_map.replace(s)\n\n            # restore the old key\n            s.key = oldkey\n"), "C33-R6")
+R.mutant("restore-no-discard-of-switched-key", SESSION, sub(_RK_OLD, "            # restore the old key\n            s.key = oldkey\n\n"), "C33-R6")
+R.mutant("register-persistent-discard-after-rekey", SESSION,
+         chain(sub("                    # map (see test/orm/test_naturalpks.py ReversePKsTest)\n                    self.identity_map.safe_discard(state)\n", "                    # map (see test/orm/test_naturalpks.py ReversePKsTest)\n"),
+               sub("                    state.key = instance_key\n\n                # there can be an existing state", "                    state.key = instance_key\n                    self.identity_map.safe_discard(state)\n\n                # there can be an existing state")), "C33-R6")
+R.mutant("benign-restore-log-between-discard-and-rekey", SESSION,
+         sub(_RK_OLD, "            self.session.identity_map.safe_discard(s)\n            _prev = newkey\n\n            s.key = oldkey\n\n"), None)
+R.mutant("benign-restore-rename-loop-var", SESSION,
+         sub("        for s, (oldkey, newkey) in self._key_switches.items():\n" + _RK_OLD + "            # now restore the object, but only if we didn't expunge\n            if s not in to_expunge:\n                self.session.identity_map.replace(s)\n",
+             "        for st_, (k_old, k_new) in self._key_switches.items():\n            imap = self.session.identity_map\n            imap.safe_discard(st_)\n            st_.key = k_old\n            if st_ not in to_expunge:\n                self.session.identity_map.replace(st_)\n"), None)
+_FL_OLD = "        if not is_begin and not self.session._flushing:\n            self.session.flush()\n"
+R.mutant("seed-savepoint-flush-only-with-autoflush", SESSION,
+         sub(_FL_OLD, "        if (\n            not is_begin\n            and self.session.autoflush\n            and not self.session._flushing\n        ):\n            self.session.flush()\n"), "C33-R7")
+R.mutant("savepoint-flush-autoflush-via-local", SESSION,
+         sub(_FL_OLD, "        wants_flush = self.session.autoflush and not self.session._flushing\n        if not is_begin and wants_flush:\n            self.session.flush()\n"), "C33-R7")
+R.mutant("commit-flush-only-with-autoflush", SESSION,
+         sub("        if not self.session._flushing:\n            for _flush_guard in range(100):", "        if self.session.autoflush and not self.session._flushing:\n            for _flush_guard in range(100):"), "C33-R7")
+R.mutant("savepoint-flush-after-fresh-maps", SESSION,
+         chain(sub(_FL_OLD + "\n", ""),
+               sub("        self._key_switches = weakref.WeakKeyDictionary()\n\n    def _restore_snapshot", "        self._key_switches = weakref.WeakKeyDictionary()\n" + _FL_OLD + "\n    def _restore_snapshot")), "C33-R7")
+R.mutant("savepoint-no-flush", SESSION, sub(_FL_OLD + "\n", "        del is_begin\n\n"), "C33-R7")
+R.mutant("benign-savepoint-flush-rename-local", SESSION,
+         chain(sub("        is_begin = self.origin in (", "        root_like = self.origin in ("), sub(_FL_OLD, "        sess = self.session\n        if not root_like and not sess._flushing:\n            sess.flush()\n")), None)
+R.mutant("prepare-does-not-commit-inner", SESSION,
+         sub("            for subtransaction in stx._iterate_self_and_parents(upto=self):\n                subtransaction.commit()\n", "            for subtransaction in stx._iterate_self_and_parents(upto=self):\n                subtransaction.close()\n"), "C33-R8")
+R.mutant("prepare-only-prepares-inner", SESSION,
+         sub("            for subtransaction in stx._iterate_self_and_parents(upto=self):\n                subtransaction.commit()\n", "            for subtransaction in stx._iterate_self_and_parents(upto=self):\n                subtransaction._prepare_impl()\n"), "C33-R8")
+R.mutant("benign-prepare-rename-inner-loop-var", SESSION,
+         sub("            for subtransaction in stx._iterate_self_and_parents(upto=self):\n                subtransaction.commit()\n", "            for inner in stx._iterate_self_and_parents(upto=self):\n                _o = inner.origin\n                inner.commit()\n"), None)
